@@ -913,6 +913,17 @@ func (w *World) Close() {
 	slog.SetDefault(w.prevLog)
 }
 
+// CopyState copies the state file as it is on disk now into a fresh directory
+// (usable as WorldOpt.StateDir of a later world) and returns that directory.
+func (w *World) CopyState() string {
+	dir := w.T.TempDir()
+	b, err := os.ReadFile(w.StatePath)
+	if err == nil {
+		os.WriteFile(filepath.Join(dir, "kamal-proxy.state"), b, 0o644)
+	}
+	return dir
+}
+
 // Trace renders the merged event log (hooks, commands, targets, clients) for replay files.
 func (w *World) Trace(limit int) []string {
 	type ev struct {
